@@ -1143,7 +1143,38 @@ func ruleOneBatchPerNode(w *core.World, r *core.Report) {
 		r.Undecided("Batch.Put/one-batch-per-node", f.Pos(), "the node choice was not found")
 		return
 	}
-	isBatches := func(v ssa.Value) bool { return core.IsFieldLoad(core.Unwrap(v), "Batch", "batches") }
+	isBatchesField := func(v ssa.Value) bool { return core.IsFieldLoad(core.Unwrap(v), "Batch", "batches") }
+	// the open batches: the field itself, or — in a position-finding helper shared by several callers, which
+	// is therefore not read as part of Put — the slice parameter to which every call from Put (there is at
+	// least one) hands that field. The paths below step into the helper, so the scan they pass is a scan of
+	// what Put handed over.
+	isBatches := func(v ssa.Value) bool {
+		if isBatchesField(v) {
+			return true
+		}
+		par, ok := core.Unwrap(v).(*ssa.Parameter)
+		if !ok || par.Parent() == f {
+			return false
+		}
+		idx := -1
+		for i, q := range par.Parent().Params {
+			if q == par {
+				idx = i
+			}
+		}
+		calls := 0
+		for _, s := range core.Sites(f, false) {
+			if s.Callee != par.Parent() || s.Instr.Parent() != f {
+				continue
+			}
+			a := s.Common().Args // static call: the receiver, if any, is the first argument, as it is the first parameter
+			if s.Common().IsInvoke() || idx < 0 || idx >= len(a) || !isBatchesField(a[idx]) {
+				return false
+			}
+			calls++
+		}
+		return calls > 0
+	}
 	// the scan: batches[i].node compared with the node, i running over 0 .. len(batches)-1
 	var scanIf *ssa.If
 	var scanIdx *ssa.Phi
